@@ -64,7 +64,13 @@ def setup(ctx):
 
 
 def _gc_range(rng, k):
-    kind = rng.choice(["half", "quarter", "quarter", "degenerate", "inverted", "asym", "none", "full"])
+    kind = rng.choice(["half", "quarter", "quarter", "degenerate", "inverted", "asym", "none", "full", "third", "third"])
+    if kind == "third":
+        # bounds whose scaled value lies a third away from an integer: rounding cannot decide, the count is never *on* the bound
+        js = sorted(rng.sample(range(0, k + 1), 2)) if k >= 1 else [0, 0]
+        lo = "%d/%d" % (max(0, 3 * js[0] - rng.choice([1, 2])), 3 * k)
+        hi = "%d/%d" % (min(3 * k, 3 * js[1] + rng.choice([1, 2])), 3 * k)
+        return [lo, hi]
     if kind == "none":
         return None
     if kind == "full":
